@@ -24,6 +24,7 @@ import (
 	"crypto/tls"
 	"errors"
 	"fmt"
+	"io"
 	"math/rand/v2"
 	"net"
 	"os"
@@ -96,10 +97,12 @@ type Cfg struct {
 	// settable through C12_FORCE: without full duplex net/http will not send such a client anything
 	// before its body has ended, so its input stream cannot work and nothing is promised about it
 	BodiedIn bool `json:"shell_input_request_with_unfinished_body"`
+	// Log: where the JSON log goes: "" (none), file, devnull, fifo (drained by the harness), env-file
+	Log string `json:"log,omitempty"`
 }
 
 func (c Cfg) sig() string {
-	return fmt.Sprintf("%s|%s|%s|%s|%s|%s|h%v|ts%v|f%v|rst%v", c.Kind, c.Order, c.Junk, c.JunkWhere, c.Traffic, c.Ending, c.Hold, c.NoTS, c.Files, c.PollRST) + map[bool]string{true: "|1cpu", false: ""}[c.OneCPU] + map[bool]string{true: "|cl", false: ""}[c.FixedLen]
+	return fmt.Sprintf("%s|%s|%s|%s|%s|%s|h%v|ts%v|f%v|rst%v", c.Kind, c.Order, c.Junk, c.JunkWhere, c.Traffic, c.Ending, c.Hold, c.NoTS, c.Files, c.PollRST) + map[bool]string{true: "|1cpu", false: ""}[c.OneCPU] + map[bool]string{true: "|cl", false: ""}[c.FixedLen] + "|log=" + c.Log
 }
 
 // makeCfg derives the configuration of case i.  C12_FORCE="order=o-i,junk=wrong-id,hold=true,ending=out-end,traffic=idle,where=pre"
@@ -195,6 +198,7 @@ func makeCfg0(rng *rand.Rand, i, rot int) Cfg {
 		c.Junk, c.JunkWhere = "half-dies", "pre"
 	}
 	c.NTok, c.NLines = 220, 220
+	c.Log = []string{"", "file", "devnull", "", "fifo", "env-file", "devnull"}[(i+rot)%7]
 	c.OneCPU = rng.IntN(4) == 0
 	if i%10 == 6 && c.Order != "i-o" && c.Order != "o-i" {
 		c.Order = []string{"i-o", "o-i"}[rng.IntN(2)] // the case below needs two requests
@@ -587,6 +591,36 @@ func runCase(r *mon.Run, bin string, i int, alone bool) *result {
 		args = append(args, "-serve-files-from", fdir)
 	}
 	var extraEnv []string
+	switch cfg.Log {
+	case "file":
+		args = append(args, "-log", filepath.Join(home, "log.json"))
+	case "env-file":
+		extraEnv = append(extraEnv, "CURLREVSHELL_LOG="+filepath.Join(home, "log.json"))
+	case "devnull":
+		args = append(args, "-log", "/dev/null")
+	case "fifo":
+		ff := filepath.Join(home, "log.fifo")
+		if err := syscall.Mkfifo(ff, 0o600); err != nil {
+			res.inconclusive("mkfifo: %v", err)
+			return res
+		}
+		// somebody reads the log (jq, a log shipper) for as long as the program writes it
+		go func() {
+			if f, err := os.OpenFile(ff, os.O_RDONLY, 0); err == nil {
+				io.Copy(io.Discard, f)
+				f.Close()
+			}
+		}()
+		defer func() { // if the program never opened it, let the reader go
+			if f, err := os.OpenFile(ff, os.O_WRONLY|syscall.O_NONBLOCK, 0); err == nil {
+				f.Close()
+			}
+		}()
+		args = append(args, "-log", ff)
+	}
+	if cfg.Log != "" {
+		res.count("runs_with_log:"+cfg.Log, 1)
+	}
 	if cfg.OneCPU {
 		extraEnv = append(extraEnv, "GOMAXPROCS=1")
 		res.count("runs_with_gomaxprocs_1", 1)
